@@ -24,7 +24,7 @@ def spec_proj(st: dict) -> dict:
       start=st['start'], stop=st['stop'], maxenq=st['maxenq'], exc=st['exc'], exhausted=st['exhausted'],
       returned=list(st['returned']),
       received={c: seq(v) for c, v in fn(st['received']).items()},
-      ended=ended)
+      ended=ended, ownL=st['ownL'], srcIdx=st['srcIdx'], cnt=dict(fn(st['cnt'])))
 
 
 def norm_real(p: dict) -> dict:
@@ -42,43 +42,47 @@ def judge(cfg: dict, o: qreplay.Outcome) -> list[tuple[str, str]]:
   out = []
   prods, cons = cfg['prods'], cfg['cons']
   stoppers = cfg.get('stoppers') or {}
+  shared = cfg.get('shared')
   declared = cfg.get('declared')
   declared = len(prods) if declared is None else declared
-  fails = {p for p, (n, f) in prods.items() if f and f <= n + 1}
-  fault_free = not fails and not stoppers and not cfg.get('timeout')
+  fails = {p for p, (n, f) in prods.items() if f and f <= n + 1} if not shared else ({'src'} if shared[1] and shared[1] <= shared[0] + 1 else set())
+  early = {c for c, v in cons.items() if v[0] == 'diter' and v[1] >= 0}
+  fault_free = not fails and not stoppers and not cfg.get('timeout') and not early
   shape = f"{len(prods)}x{len(cons)}:cap{cfg.get('cap', 0)}"
   if isinstance(o.failure, sched.Deadlock):
     kinds = sorted({('producer' if t in prods else 'consumer' if t in cons else 'stopper') for t in o.blocked})
-    how = 'fault-free' if fault_free else ('after-failure' if fails else 'after-stop' if stoppers else 'timeout')
+    how = ('fault-free' if fault_free else 'after-failure' if fails else 'after-stop' if (stoppers or early) else 'timeout')
     modes = sorted({cons[t][0] + ('-block' if len(cons[t]) > 2 and cons[t][2] else '') for t in o.blocked if t in cons})
-    out.append((f'deadlock:{how}:{"+".join(kinds)}{":" + "+".join(modes) if modes else ""}',
+    joined = any(v[0] == 'pred' and 'pool-shutdown' in str(v[1]) for v in o.blocked.values())
+    out.append((f'deadlock:{how}:{"+".join(kinds)}{":" + "+".join(modes) if modes else ""}' + (':pool-shutdown' if joined else ''),
                 f'blocked forever: {o.blocked}'))
     return out
   if o.failure is not None:
     out.append((f'nontermination:{type(o.failure).__name__}', str(o.failure)))
     return out
-  all_items = [[p, i] for p, (n, f) in prods.items() for i in range(1, n + 1)]
+  if shared:
+    all_items = [['src', i] for i in range(1, shared[0] + 1) if not (cfg.get('ignore_error') and i == shared[1])]
+  else:
+    all_items = [[p, i] for p, (n, f) in prods.items() for i in range(1, n + 1)]
   got = [list(x) for c in cons for x in o.received[c]]
-  # never twice
   seen = set()
   for x in got:
     if tuple(x) in seen:
       out.append(('duplicate-delivery', f'{x} delivered twice: {o.received}'))
       break
     seen.add(tuple(x))
-  # only produced elements
   for x in got:
     if x not in all_items:
       out.append(('phantom-element', f'{x} was never produced'))
       break
-  # per-producer order per consumer
-  for c in cons:
-    last = {}
-    for p, i in o.received[c]:
-      if last.get(p, 0) >= i:
-        out.append(('order', f'{c} received {o.received[c]}'))
-        break
-      last[p] = i
+  if not shared:
+    for c in cons:
+      last = {}
+      for p, i in o.received[c]:
+        if last.get(p, 0) >= i:
+          out.append(('order', f'{c} received {o.received[c]}'))
+          break
+        last[p] = i
   if fault_free and cons:
     if sorted(got) != sorted(all_items):
       out.append(('lost-element', f'received {sorted(got)} of {sorted(all_items)}'))
@@ -86,11 +90,26 @@ def judge(cfg: dict, o: qreplay.Outcome) -> list[tuple[str, str]]:
       e = o.ended[c]
       if e[0] != 'stop':
         out.append((f'end:{e[0]}', f'{c} ended with {e} in a fault-free run'))
-      elif declared and sorted(e[1]) != sorted(prods):
+      elif declared and not shared and sorted(e[1]) != sorted(prods):
         out.append(('end-args', f'{c} end-of-stream carries {e[1]}, producers returned {sorted(prods)}'))
     for p in prods:
-      if o.prod_result.get(p) != 'returned':
+      if o.prod_result.get(p) not in ('returned', 'pool-worker'):
         out.append(('producer-result', f'{p}: {o.prod_result.get(p)}'))
+  # early stop after num_steps elements: exactly that many delivered (or the whole stream if shorter)
+  for c in early:
+    steps = cons[c][1]
+    e = o.ended[c]
+    if not fails and not stoppers:
+      if e[0] == 'stopped' and len(o.received[c]) != steps:
+        out.append(('early-stop-count', f'{c} stopped after {len(o.received[c])} elements, num_steps={steps}'))
+      if e[0] == 'stop' and len(o.received[c]) != len(all_items):
+        out.append(('early-stop-count', f'{c} saw end of stream after {len(o.received[c])} of {len(all_items)} elements'))
+      if e[0] not in ('stopped', 'stop'):
+        out.append((f'end:{e[0]}', f'{c} ended with {e}'))
+  # helper threads: when iteration over a MultiplexIterator ends (exhausted, failed or stopped) the pool is shut down
+  for c, alive in o.pool_alive_at_end.items():
+    if alive:
+      out.append(('pool-threads-alive', f'{alive} still running after {c} ended with {o.ended[c]}'))
   if fails and not stoppers and declared and not cfg.get('ignore_error'):
     for c in cons:
       if o.ended[c][0] not in ('exc', 'timeout'):
